@@ -4059,3 +4059,57 @@ def tuple_mutate(r: R, chk, entries: List[str], rule="TUPLE-MUTATE"):
     chk.floor(rule, "list-only method calls with a typed receiver on the path", n, 3)
     chk.floor(rule, "positive control: `tuple(...)` values typed as tuple by the engine", seen_tuple, 1)
     return n
+
+
+# ---------------------------------------------------------------------------------------------------------
+# MATRIX-OPERAND: the k-th matrix of `f(U_a, U_b)` multiplies the points of the operand whose knot vector was the k-th argument
+def matrix_operand(r: R, chk, qual: str, helper_suffix: str = "add_spline_curve", rule="MATRIX-OPERAND"):
+    """`matra, matrb = add_spline_curve(vecta, vectb)`: matra writes a spline over U_a in the common space, matrb one over U_b.
+    A product `matrix @ X.ctrlpoints` has to pair each matrix with the control points of its own operand; with the other one the
+    shapes still fit whenever both curves have the same number of control points, and the sum is silently wrong."""
+    ctx = r.root(qual)
+    fi = ctx.fi
+
+    def data_root(e):
+        v = ctx.val(e)
+        if v is None:
+            return None
+        rs = {d[1] for d in v.all_dep() if d[0] == "PF" and d[1] in (0, 1) and ("ctrlpoints" in d[2] or "weights" in d[2])}
+        return next(iter(rs)) if len(rs) == 1 else None
+
+    def kv_root(e):
+        v = ctx.val(e)
+        if v is None:
+            return None
+        rs = {d[1] for d in v.all_dep() if d[0] in ("P", "PF") and d[1] in (0, 1)}
+        return next(iter(rs)) if len(rs) == 1 else None
+
+    owner = {}
+    for a in ast.walk(fi.node):
+        if isinstance(a, ast.Assign) and len(a.targets) == 1 and isinstance(a.targets[0], ast.Tuple) and isinstance(a.value, ast.Call) and seg(a.value.func).endswith(helper_suffix):
+            for t, arg in zip(a.targets[0].elts, a.value.args):
+                if isinstance(t, ast.Name) and kv_root(arg) is not None:
+                    owner[t.id] = kv_root(arg)
+    n = 0
+    for b in ast.walk(fi.node):
+        l = rr = None
+        if isinstance(b, ast.BinOp) and isinstance(b.op, ast.MatMult):
+            l, rr = b.left, b.right
+        elif isinstance(b, ast.Call) and seg(b.func) in ("np.dot", "np.matmul") and len(b.args) == 2:
+            l, rr = b.args
+        if l is None:
+            continue
+        while isinstance(l, ast.Call) and seg(l.func) in ("np.array", "np.asarray") and l.args:
+            l = l.args[0]
+        if not (isinstance(l, ast.Name) and l.id in owner):
+            continue
+        dr = data_root(rr)
+        if dr is None:
+            continue
+        n += 1
+        ok = dr == owner[l.id]
+        chk.ob(rule, f"{qual}: `{seg(b, 50)}` pairs the matrix with the points of its own operand", ok, loc=r.loc(ctx, b),
+               detail="" if ok else f"{qual}: `{seg(b, 50)}` applies the matrix that belongs to `{fi.params[owner[l.id]]}`'s knot vector to the control points of `{fi.params[dr]}`: when both curves have the same number of control points the shapes fit and A + B / A - B are silently wrong for different interior knots (otherwise a shape error)",
+               func=qual, construct="transformation matrix applied to the other operand's points")
+    chk.floor(rule, f"matrix-times-points products next to {helper_suffix} in {qual}", n, 2)
+    return n
